@@ -3,7 +3,8 @@ import vlib
 from props import clihist_common as C
 from props._client_family import *  # noqa
 
-BINS = {"release": ["clihist"], "debug": ["clihist"]}
+MODELS = ["clihist", "clifault"]
+BINS = {"release": ["clihist", "clifault"], "debug": ["clihist", "clifault"]}
 DEBUG_IN_QUICK = True
 RULE = ("random client histories with a transport fault (receive error, send error) or an offending server frame (garbage, empty "
         "array, response matching nothing pending, ids at the u64 boundary, non-numeric ids in arrays) injected at a random step, on "
@@ -56,9 +57,18 @@ def run(ctx):
                 ctx.fail("oracle", "client-task-panicked", {"history": H.text()}, a[-300:])
             elif a != b:
                 ctx.fail("oracle", "debug-release-differ", {"history": H.text()}, {"debug": a, "release": b})
-    try:
-        from props import clifault_common as CF
-    except ImportError:
-        ctx.note("clifault engine not integrated yet")
-        return
+    from props import clifault_common as CF
     CF.run(ctx)
+
+
+def replay(payload):
+    """histories go to the clihist engines (shared replay), shutdown scripts to the clifault engines"""
+    case = payload.get("case")
+    if isinstance(case, dict) and "script" in case:
+        import json
+        from props import clifault_common as CF
+        print(json.dumps(payload, indent=1)[:4000])
+        CF.replay_case(case)
+        return 0
+    from props import _client_family as F
+    return F.replay(payload)
